@@ -2,13 +2,527 @@ package main
 
 import (
 	"encoding/json"
-	"errors"
+	"fmt"
 	"math/rand"
+	"os"
+	"path/filepath"
+	"sort"
+	"strings"
+
+	"deps.dev/util/resolve"
+	"deps.dev/util/resolve/dep"
+	scalibrfs "github.com/google/osv-scalibr/fs"
+	"github.com/google/osv-scalibr/guidedremediation"
+	"github.com/google/osv-scalibr/guidedremediation/result"
+
+	cf "verifharness/internal/coqfmt"
 )
+
+// ---------------------------------------------------------------- structured package.json
+
+type jMember struct {
+	Pre  string `json:"pre"`
+	Key  string `json:"key"`
+	Mid  string `json:"mid"`
+	Val  string `json:"val"`
+	Post string `json:"post"`
+}
+
+type jItem struct {
+	Pre     string    `json:"pre"`
+	Key     string    `json:"key"`
+	Mid     string    `json:"mid"`
+	Section bool      `json:"section"`
+	Members []jMember `json:"members,omitempty"`
+	EmptyWS string    `json:"empty_ws,omitempty"`
+	Raw     string    `json:"raw,omitempty"`
+	Post    string    `json:"post"`
+}
+
+type jDoc struct {
+	Lead    string  `json:"lead"`
+	Items   []jItem `json:"items"`
+	EmptyWS string  `json:"empty_ws"`
+	Trail   string  `json:"trail"`
+}
+
+func quoteRaw(s string) string { return "\"" + s + "\"" }
+
+func (m jMember) render() string {
+	return m.Pre + quoteRaw(m.Key) + m.Mid + quoteRaw(m.Val) + m.Post
+}
+
+func (t jItem) render() string {
+	v := t.Raw
+	if t.Section {
+		if len(t.Members) == 0 {
+			v = "{" + t.EmptyWS + "}"
+		} else {
+			parts := make([]string, len(t.Members))
+			for i, m := range t.Members {
+				parts[i] = m.render()
+			}
+			v = "{" + strings.Join(parts, ",") + "}"
+		}
+	}
+	return t.Pre + quoteRaw(t.Key) + t.Mid + v + t.Post
+}
+
+func (d jDoc) render() string {
+	body := d.EmptyWS
+	if len(d.Items) > 0 {
+		parts := make([]string, len(d.Items))
+		for i, t := range d.Items {
+			parts[i] = t.render()
+		}
+		body = strings.Join(parts, ",")
+	}
+	return d.Lead + "{" + body + "}" + d.Trail
+}
+
+func (m jMember) coq() string {
+	return fmt.Sprintf("{| m_pre := %s; m_key := %s; m_mid := %s; m_val := %s; m_post := %s |}",
+		cf.Str(m.Pre), cf.Str(m.Key), cf.Str(m.Mid), cf.Str(m.Val), cf.Str(m.Post))
+}
+
+func (t jItem) coq() string {
+	var v string
+	if t.Section {
+		ms := make([]string, len(t.Members))
+		for i, m := range t.Members {
+			ms[i] = m.coq()
+		}
+		l := "(@nil member)"
+		if len(ms) > 0 {
+			l = cf.List(ms)
+		}
+		v = fmt.Sprintf("(TSection %s %s)", l, cf.Str(t.EmptyWS))
+	} else {
+		v = fmt.Sprintf("(TRaw %s)", cf.Str(t.Raw))
+	}
+	return fmt.Sprintf("{| t_pre := %s; t_key := %s; t_mid := %s; t_val := %s; t_post := %s |}",
+		cf.Str(t.Pre), cf.Str(t.Key), cf.Str(t.Mid), v, cf.Str(t.Post))
+}
+
+func (d jDoc) coq() string {
+	its := make([]string, len(d.Items))
+	for i, t := range d.Items {
+		its[i] = t.coq()
+	}
+	l := "(@nil item)"
+	if len(its) > 0 {
+		l = cf.List(its)
+	}
+	return fmt.Sprintf("{| d_lead := %s; d_items := %s; d_empty_ws := %s; d_trail := %s |}",
+		cf.Str(d.Lead), l, cf.Str(d.EmptyWS), cf.Str(d.Trail))
+}
+
+// ---------------------------------------------------------------- cases
+
+type jUpdate struct {
+	Name    string `json:"name"`
+	KnownAs string `json:"known_as,omitempty"`
+	Alias   bool   `json:"alias,omitempty"`
+	From    string `json:"from"`
+	To      string `json:"to"`
+}
+
+func (u jUpdate) coq() string {
+	return fmt.Sprintf("{| u_name := %s; u_known_as := %s; u_from := %s; u_to := %s |}",
+		cf.Str(u.Name), cf.Option(u.Alias, cf.Str(u.KnownAs)), cf.Str(u.From), cf.Str(u.To))
+}
+
+type pkgjsonCase struct {
+	Stream   string    `json:"stream"`
+	Doc      jDoc      `json:"doc"`
+	Updates  []jUpdate `json:"updates"`
+	Outcome  string    `json:"outcome"` // ok | err | panic | read-error
+	Err      string    `json:"err,omitempty"`
+	Input    string    `json:"input"`
+	Output   string    `json:"output,omitempty"`
+	RereadOK bool      `json:"reread_ok"`
+	Reqs     []string  `json:"reqs,omitempty"`
+	Reread   []string  `json:"reread,omitempty"`
+}
+
+func (c *pkgjsonCase) coq() string {
+	obs := "JObsErr"
+	switch c.Outcome {
+	case "ok":
+		obs = fmt.Sprintf("(JObsOk %s)", cf.Str(c.Output))
+	case "panic":
+		obs = "JObsPanic"
+	}
+	ups := make([]string, len(c.Updates))
+	for i, u := range c.Updates {
+		ups[i] = u.coq()
+	}
+	l := "(@nil jupdate)"
+	if len(ups) > 0 {
+		l = cf.List(ups)
+	}
+	return fmt.Sprintf("{| jc_doc := %s; jc_input := %s; jc_updates := %s; jc_obs := %s; jc_reread_ok := %s |}",
+		c.Doc.coq(), cf.Str(c.Input), l, obs, cf.Bool(c.RereadOK))
+}
+
+func reqString(r resolve.RequirementVersion) string {
+	ka, _ := r.Type.GetAttr(dep.KnownAs)
+	opt := ""
+	if r.Type.HasAttr(dep.Opt) {
+		opt = "opt"
+	}
+	return fmt.Sprintf("%s|%s|%s|%s", r.Name, ka, r.Version, opt)
+}
+
+func readNpm(dir string) (guidedremediation.VerifManifest, []resolve.RequirementVersion, error) {
+	m, err := guidedremediation.VerifManifestRead(resolve.NPM, "", "package.json", scalibrfs.DirFS(dir))
+	if err != nil {
+		return nil, nil, err
+	}
+	return m, m.Requirements(), nil
+}
+
+// run writes the input, reads it, applies the updates with the real writer and re-reads the result.
+// pickUpdates (optional) chooses the updates once the requirements are known.
+func (c *pkgjsonCase) run(pickUpdates func(reqs []resolve.RequirementVersion) []jUpdate) {
+	dir, err := os.MkdirTemp("", "c13npm")
+	if err != nil {
+		panic(err)
+	}
+	defer os.RemoveAll(dir)
+	c.Input = c.Doc.render()
+	c.Output, c.Err, c.RereadOK, c.Reqs, c.Reread = "", "", false, nil, nil
+	if err := os.WriteFile(filepath.Join(dir, "package.json"), []byte(c.Input), 0o644); err != nil {
+		panic(err)
+	}
+	m, reqs, err := readNpm(dir)
+	if err != nil {
+		c.Outcome = "read-error"
+		c.Err = err.Error()
+		return
+	}
+	if pickUpdates != nil {
+		c.Updates = pickUpdates(reqs)
+	}
+	for _, r := range reqs {
+		c.Reqs = append(c.Reqs, reqString(r))
+	}
+	ups := make([]result.PackageUpdate, len(c.Updates))
+	for i, u := range c.Updates {
+		typ := dep.NewType()
+		if u.Alias {
+			typ.AddAttr(dep.KnownAs, u.KnownAs)
+		}
+		ups[i] = result.PackageUpdate{Name: u.Name, VersionFrom: u.From, VersionTo: u.To, Type: typ}
+	}
+	outDir := filepath.Join(dir, "out")
+	outPath := filepath.Join(outDir, "package.json")
+	func() {
+		defer func() {
+			if r := recover(); r != nil {
+				c.Outcome = "panic"
+				c.Err = fmt.Sprint(r)
+			}
+		}()
+		if err := guidedremediation.VerifManifestWrite(resolve.NPM, "", m, scalibrfs.DirFS(dir), ups, outPath); err != nil {
+			c.Outcome = "err"
+			c.Err = err.Error()
+			return
+		}
+		c.Outcome = "ok"
+	}()
+	if c.Outcome != "ok" {
+		return
+	}
+	b, err := os.ReadFile(outPath)
+	if err != nil {
+		c.Outcome = "err"
+		c.Err = "no output: " + err.Error()
+		return
+	}
+	c.Output = string(b)
+	// round trip: requirements of the written file = original requirements with the versions substituted
+	_, reqs2, err := readNpm(outDir)
+	if err != nil {
+		c.Err = "reread: " + err.Error()
+		return
+	}
+	var want []string
+	for _, r := range reqs {
+		ka, hasKA := r.Type.GetAttr(dep.KnownAs)
+		for _, u := range c.Updates {
+			if u.Name == r.Name && u.Alias == hasKA && (!hasKA || u.KnownAs == ka) && u.From == r.Version {
+				r.Version = u.To
+				break
+			}
+		}
+		want = append(want, reqString(r))
+	}
+	for _, r := range reqs2 {
+		c.Reread = append(c.Reread, reqString(r))
+	}
+	a, b2 := append([]string{}, want...), append([]string{}, c.Reread...)
+	sort.Strings(a)
+	sort.Strings(b2)
+	c.RereadOK = strings.Join(a, "\n") == strings.Join(b2, "\n")
+}
+
+// ---------------------------------------------------------------- generator
+
+var (
+	plainNames  = []string{"lodash", "express", "left-pad", "react_dom", "a", "b2", "chalk", "UPPER", "x-y-z", "7zip", "-1", "0"}
+	scopedNames = []string{"@types/node", "@scope/pkg", "@babel/core", "@a/b", "@x-y/z_w"}
+	dottedNames = []string{"socket.io", "lodash.merge", "@types/socket.io", "a.b.c", "big.js", "a.", ".hidden", "lodash.*"}
+	wildNames   = []string{"a*", "*", "lod?sh", "x?", "jquery*ui", "?", "ch*"}
+	exoticNames = []string{"a|b", "we\\\\ird", "a#b", ":x", "!y", "x@y", "[z", "@this.x", "{q", "@pretty"}
+	npmVersions = []string{"^1.2.3", "~2.0.0", "1.0.0", ">=1.0.0 <2.0.0", "*", "latest", "1.x", "2 || 3", "^0.0.1", "", "10.1.0-beta.1", "<3"}
+	newVersions = []string{"^1.2.4", "^2.0.0", "3.1.4", "~0.9.0", "^10.0.0", "1", ">=4 <5", "9.9.9-rc.1", ""}
+	wsStyles    = [][4]string{ // item indent, member indent, after colon, newline
+		{"  ", "    ", " ", "\n"},
+		{"", "", "", ""},
+		{"\t", "\t\t", " ", "\n"},
+		{" ", "  ", "  ", "\r\n"},
+		{"    ", "        ", " ", "\n"},
+	}
+	rawItems = [][2]string{
+		{"name", "\"demo-app\""}, {"version", "\"1.0.0\""}, {"private", "true"}, {"description", "\"a \\\"quoted\\\" } { text\""},
+		{"scripts", "{\"test\": \"jest\", \"build\": \"tsc -p .\"}"}, {"files", "[\"dist\", \"src/*.js\"]"},
+		{"config", "{\"dependencies\": {\"lodash\": \"0.0.0\"}, \"n\": [1, 2.5e3, null]}"}, {"license", "\"MIT\""},
+		{"engines", "{ \"node\" : \">=14\" }"}, {"main", "\"index.js\""},
+	}
+)
+
+func pickName(rng *rand.Rand, exotic bool) string {
+	r := rng.Intn(100)
+	switch {
+	case exotic && r < 30:
+		return pick(rng, exoticNames)
+	case r < 40:
+		return pick(rng, plainNames)
+	case r < 60:
+		return pick(rng, scopedNames)
+	case r < 85:
+		return pick(rng, dottedNames)
+	default:
+		return pick(rng, wildNames)
+	}
+}
+
+// aliasTarget is the real package an alias key stands for. It is a function of the key, and never one
+// of the plain keys: Read dedupes by real package name in Go map order, so two keys of one section that
+// resolve to the same package would make Read itself nondeterministic (not the writer's business).
+func aliasTarget(key string) string {
+	h := fmt.Sprintf("%x", key)
+	if strings.HasPrefix(key, "@") {
+		return "@real/t" + h
+	}
+	return "real-" + h
+}
+
+func randWS(rng *rand.Rand, weird bool) string {
+	if !weird {
+		return ""
+	}
+	return randWord(rng, []string{" ", "\t", "\n", "", ""}, 0, 2)
+}
+
+func genDoc(rng *rand.Rand, exotic bool) jDoc {
+	st := wsStyles[rng.Intn(len(wsStyles))]
+	weird := rng.Intn(5) == 0
+	nl := st[3]
+	var d jDoc
+	if rng.Intn(6) == 0 {
+		d.Lead = randWS(rng, true)
+	}
+	d.Trail = pick(rng, []string{"\n", "", "\n\n", " "})
+	d.EmptyWS = pick(rng, []string{"", " ", "\n"})
+	secNames := []string{"dependencies", "devDependencies", "optionalDependencies", "peerDependencies"}
+	var keys []string
+	for _, s := range secNames {
+		if rng.Intn(10) < 7 {
+			keys = append(keys, s)
+		}
+	}
+	nraw := rng.Intn(5)
+	perm := rng.Perm(len(rawItems))
+	rawOf := map[string]string{}
+	for i := 0; i < nraw; i++ {
+		keys = append(keys, rawItems[perm[i]][0])
+		rawOf[rawItems[perm[i]][0]] = rawItems[perm[i]][1]
+	}
+	rng.Shuffle(len(keys), func(i, j int) { keys[i], keys[j] = keys[j], keys[i] })
+	// a shared pool so that one name shows up in several sections
+	var pool []string
+	for i := 0; i < 2+rng.Intn(5); i++ {
+		pool = append(pool, pickName(rng, exotic))
+	}
+	for _, k := range keys {
+		t := jItem{Key: k, Pre: nl + st[0] + randWS(rng, weird), Mid: randWS(rng, weird) + ":" + st[2] + randWS(rng, weird), Post: randWS(rng, weird)}
+		if raw, ok := rawOf[k]; ok {
+			t.Raw = raw
+		} else {
+			t.Section = true
+			t.EmptyWS = pick(rng, []string{"", " ", nl + st[0]})
+			used := map[string]bool{}
+			n := rng.Intn(5)
+			for i := 0; i < n; i++ {
+				name := pick(rng, pool)
+				if rng.Intn(4) == 0 {
+					name = pickName(rng, exotic)
+				}
+				if used[name] {
+					continue
+				}
+				used[name] = true
+				ver := pick(rng, npmVersions)
+				if rng.Intn(6) == 0 { // alias: key is the alias, value npm:real@ver
+					ver = "npm:" + aliasTarget(name) + "@" + ver
+				}
+				if rng.Intn(25) == 0 { // non-registry requirement, skipped by Read
+					ver = pick(rng, []string{"git+https://example.com/r.git", "file:../x", "user/repo"})
+				}
+				m := jMember{Key: name, Val: ver, Pre: nl + st[1] + randWS(rng, weird), Mid: randWS(rng, weird) + ":" + st[2], Post: randWS(rng, weird)}
+				t.Members = append(t.Members, m)
+			}
+			if len(t.Members) > 0 {
+				t.Members[len(t.Members)-1].Post += nl + st[0]
+			}
+		}
+		d.Items = append(d.Items, t)
+	}
+	if len(d.Items) > 0 {
+		d.Items[len(d.Items)-1].Post += nl
+	}
+	return d
+}
+
+func updateFromReq(rng *rand.Rand, r resolve.RequirementVersion) jUpdate {
+	ka, has := r.Type.GetAttr(dep.KnownAs)
+	to := pick(rng, newVersions)
+	for to == r.Version {
+		to = pick(rng, newVersions)
+	}
+	return jUpdate{Name: r.Name, KnownAs: ka, Alias: has, From: r.Version, To: to}
+}
 
 type pkgjsonEmitter struct{}
 
-func (pkgjsonEmitter) header() string                        { return "" }
-func (pkgjsonEmitter) caseType() string                      { return "jcase" }
-func (pkgjsonEmitter) generate(*rand.Rand, int) []anyCase    { return nil }
-func (pkgjsonEmitter) fromJSON(json.RawMessage) (anyCase, error) { return nil, errors.New("todo") }
+func (pkgjsonEmitter) header() string {
+	return "From Coq Require Import List ZArith NArith Bool.\n" +
+		"From Scalibr Require Import Writers.GoBytes Writers.PkgJson.\nImport ListNotations.\n"
+}
+func (pkgjsonEmitter) caseType() string { return "jcase" }
+
+func (pkgjsonEmitter) fromJSON(raw json.RawMessage) (anyCase, error) {
+	var c pkgjsonCase
+	if err := json.Unmarshal(raw, &c); err != nil {
+		return nil, err
+	}
+	c.run(nil)
+	return &c, nil
+}
+
+func simpleDoc(members map[string][][2]string, order []string) jDoc {
+	d := jDoc{Trail: "\n"}
+	d.Items = append(d.Items, jItem{Pre: "\n  ", Key: "name", Mid: ": ", Raw: "\"demo\""})
+	for _, sec := range order {
+		t := jItem{Pre: "\n  ", Key: sec, Mid: ": ", Section: true}
+		for _, kv := range members[sec] {
+			t.Members = append(t.Members, jMember{Pre: "\n    ", Key: kv[0], Mid: ": ", Val: kv[1]})
+		}
+		if len(t.Members) > 0 {
+			t.Members[len(t.Members)-1].Post = "\n  "
+		}
+		d.Items = append(d.Items, t)
+	}
+	d.Items[len(d.Items)-1].Post += "\n"
+	return d
+}
+
+func (pkgjsonEmitter) generate(rng *rand.Rand, n int) []anyCase {
+	var out []anyCase
+	fixed := func(stream string, d jDoc, ups []jUpdate) {
+		c := &pkgjsonCase{Stream: stream, Doc: d, Updates: ups}
+		c.run(nil)
+		out = append(out, c)
+	}
+	// boundary cases, always present
+	fixed("boundary", simpleDoc(map[string][][2]string{"dependencies": {{"lodash", "^4.0.0"}, {"socket.io", "^2.0.0"}}}, []string{"dependencies"}),
+		[]jUpdate{{Name: "socket.io", From: "^2.0.0", To: "^4.7.0"}})
+	fixed("boundary", simpleDoc(map[string][][2]string{"dependencies": {{"lodash", "^4.0.0"}, {"socket.io", "^2.0.0"}}}, []string{"dependencies"}),
+		[]jUpdate{{Name: "lodash", From: "^4.0.0", To: "^4.17.21"}})
+	fixed("boundary", simpleDoc(map[string][][2]string{"dependencies": {{"ab", "1.0.0"}, {"a*", "2.0.0"}}}, []string{"dependencies"}),
+		[]jUpdate{{Name: "a*", From: "2.0.0", To: "2.0.1"}})
+	fixed("boundary", simpleDoc(map[string][][2]string{"dependencies": {{"a*", "2.0.0"}, {"ab", "2.0.0"}}}, []string{"dependencies"}),
+		[]jUpdate{{Name: "ab", From: "2.0.0", To: "2.0.1"}})
+	fixed("boundary", simpleDoc(map[string][][2]string{"dependencies": {{"x", "1.0.0"}}, "devDependencies": {{"x", "2.0.0"}}, "optionalDependencies": {{"x", "1.0.0"}}},
+		[]string{"dependencies", "optionalDependencies", "devDependencies"}), []jUpdate{{Name: "x", From: "2.0.0", To: "2.0.1"}})
+	fixed("boundary", simpleDoc(map[string][][2]string{"dependencies": {{"x", "1.0.0"}}, "devDependencies": {{"x", "2.0.0"}}},
+		[]string{"devDependencies", "dependencies"}), []jUpdate{{Name: "x", From: "1.0.0", To: "1.0.1"}})
+	fixed("boundary", simpleDoc(map[string][][2]string{"dependencies": {{"al", "npm:real@^1.0.0"}, {"real", "^0.5.0"}}}, []string{"dependencies"}),
+		[]jUpdate{{Name: "real", KnownAs: "al", Alias: true, From: "^1.0.0", To: "^1.2.0"}})
+	fixed("boundary", simpleDoc(map[string][][2]string{"dependencies": {{"@types/socket.io", "^1.0.0"}, {"@types/node", "^18.0.0"}}}, []string{"dependencies"}),
+		[]jUpdate{{Name: "@types/socket.io", From: "^1.0.0", To: "^3.0.0"}, {Name: "@types/node", From: "^18.0.0", To: "^20.0.0"}})
+	fixed("zero-updates", simpleDoc(map[string][][2]string{"dependencies": {{"lodash", "^4.0.0"}}}, []string{"dependencies"}), nil)
+
+	for i := 0; i < n; i++ {
+		r := rng.Intn(100)
+		exotic := r >= 94
+		c := &pkgjsonCase{Doc: genDoc(rng, exotic)}
+		switch {
+		case r < 10:
+			c.Stream = "zero-updates"
+			c.run(func([]resolve.RequirementVersion) []jUpdate { return nil })
+		case r < 75 || exotic:
+			c.Stream = "addressed"
+			if exotic {
+				c.Stream = "exotic-names"
+			}
+			c.run(func(reqs []resolve.RequirementVersion) []jUpdate {
+				var ups []jUpdate
+				perm := rng.Perm(len(reqs))
+				k := 1 + rng.Intn(3)
+				for _, j := range perm {
+					if len(ups) >= k {
+						break
+					}
+					ups = append(ups, updateFromReq(rng, reqs[j]))
+				}
+				return ups
+			})
+		case r < 87: // version in the patch does not match the file
+			c.Stream = "mismatch"
+			c.run(func(reqs []resolve.RequirementVersion) []jUpdate {
+				var ups []jUpdate
+				for _, j := range rng.Perm(len(reqs)) {
+					u := updateFromReq(rng, reqs[j])
+					if len(ups) == 0 || rng.Intn(2) == 0 {
+						u.From = pick(rng, npmVersions)
+					}
+					ups = append(ups, u)
+					if len(ups) >= 2 {
+						break
+					}
+				}
+				return ups
+			})
+		default: // update for a package the file does not mention, or repeated updates of one key
+			c.Stream = "absent-or-repeated"
+			c.run(func(reqs []resolve.RequirementVersion) []jUpdate {
+				ups := []jUpdate{{Name: pickName(rng, false), From: pick(rng, npmVersions), To: pick(rng, newVersions)}}
+				if len(reqs) > 0 && rng.Intn(2) == 0 {
+					u := updateFromReq(rng, reqs[rng.Intn(len(reqs))])
+					u2 := u
+					u2.From, u2.To = u.To, pick(rng, newVersions)
+					ups = append(ups, u, u2)
+				}
+				return ups
+			})
+		}
+		if c.Outcome == "read-error" {
+			continue
+		}
+		out = append(out, c)
+	}
+	return out
+}
